@@ -189,6 +189,15 @@ func TestC14(t *testing.T) {
 			{"check n:o1#a@u max-depth=2", func(ctx context.Context) string {
 				return memb(w.Eng.CheckRelationTuple(ctx, w.Internal(tid("o1", "a", "u")), 2))
 			}},
+			// ... and the entry point the API handlers use (CheckIsMember), unlimited and cut short
+			{"ismember n:o1#a@u", func(ctx context.Context) string {
+				ok, err := w.Eng.CheckIsMember(ctx, w.Internal(tid("o1", "a", "u")), 0)
+				return fmt.Sprint(ok, " ", err)
+			}},
+			{"ismember n:o1#a@u max-depth=2", func(ctx context.Context) string {
+				ok, err := w.Eng.CheckIsMember(ctx, w.Internal(tid("o1", "a", "u")), 2)
+				return fmt.Sprint(ok, " ", err)
+			}},
 			{"batch [o1#p@u, o2#p@u]", func(ctx context.Context) string {
 				res, err := w.Eng.BatchCheck(ctx, []*ketoapi.RelationTuple{api("o1"), api("o2")}, 0)
 				if err != nil {
